@@ -73,6 +73,12 @@ type webClient struct {
 	writerDone  chan struct{}
 	actions     *unbounded.Channel[any]
 
+	// infoMu protects username, permissions and data.  These are
+	// only ever written by the client's own goroutine, which may
+	// therefore read them without locking, but they are read by other
+	// goroutines through the accessors below.
+	infoMu sync.Mutex
+
 	mu   sync.Mutex
 	down map[string]*rtpDownConnection
 	up   map[string]*rtpUpConnection
@@ -91,10 +97,14 @@ func (c *webClient) Id() string {
 }
 
 func (c *webClient) Username() string {
+	c.infoMu.Lock()
+	defer c.infoMu.Unlock()
 	return c.username
 }
 
 func (c *webClient) Init(username string, perms []string) {
+	c.infoMu.Lock()
+	defer c.infoMu.Unlock()
 	c.username = username
 	// perms may be shared with the group description, the role table
 	// or a token, and we modify it in place
@@ -102,11 +112,29 @@ func (c *webClient) Init(username string, perms []string) {
 }
 
 func (c *webClient) Permissions() []string {
-	return c.permissions
+	c.infoMu.Lock()
+	defer c.infoMu.Unlock()
+	return slices.Clone(c.permissions)
 }
 
 func (c *webClient) Data() map[string]interface{} {
+	c.infoMu.Lock()
+	defer c.infoMu.Unlock()
 	return maps.Clone(c.data)
+}
+
+// setPermissions must be called by the client's own goroutine.
+func (c *webClient) setPermissions(perms []string) {
+	c.infoMu.Lock()
+	defer c.infoMu.Unlock()
+	c.permissions = perms
+}
+
+// setData must be called by the client's own goroutine.
+func (c *webClient) setData(data map[string]interface{}) {
+	c.infoMu.Lock()
+	defer c.infoMu.Unlock()
+	c.data = data
 }
 
 func (c *webClient) PushClient(group, kind, id string, username string, perms []string, data map[string]interface{}) error {
@@ -1218,27 +1246,30 @@ func handleAction(c *webClient, a any) error {
 			}
 		}
 	case changePermissionsAction:
+		// other goroutines may be reading c.permissions
+		perms := slices.Clone(c.permissions)
 		switch a.kind {
 		case "op":
-			c.permissions = addnew("op", c.permissions)
+			perms = addnew("op", perms)
 			g := c.Group()
 			if g != nil && g.Description().AllowRecording {
-				c.permissions = addnew("record", c.permissions)
+				perms = addnew("record", perms)
 			}
 		case "unop":
-			c.permissions = remove("op", c.permissions)
-			c.permissions = remove("record", c.permissions)
+			perms = remove("op", perms)
+			perms = remove("record", perms)
 		case "present":
-			c.permissions = addnew("present", c.permissions)
+			perms = addnew("present", perms)
 		case "unpresent":
-			c.permissions = remove("present", c.permissions)
+			perms = remove("present", perms)
 		case "shutup":
-			c.permissions = remove("message", c.permissions)
+			perms = remove("message", perms)
 		case "unshutup":
-			c.permissions = addnew("message", c.permissions)
+			perms = addnew("message", perms)
 		default:
 			return group.UserError("unknown permission")
 		}
+		c.setPermissions(perms)
 		c.action(permissionsChangedAction{})
 	case permissionsChangedAction:
 		g := c.Group()
@@ -1329,8 +1360,8 @@ func leaveGroup(c *webClient) {
 	}
 
 	group.DelClient(c)
-	c.permissions = nil
-	c.data = nil
+	c.setPermissions(nil)
+	c.setData(nil)
 	c.requested = make(map[string][]string)
 	c.group = nil
 }
@@ -1409,7 +1440,7 @@ func handleClientMessage(c *webClient, m clientMessage) error {
 				"cannot join multiple groups",
 			)
 		}
-		c.data = m.Data
+		c.setData(m.Data)
 		g, err := group.AddClient(m.Group, c,
 			group.ClientCredentials{
 				Username: m.Username,
@@ -1965,16 +1996,19 @@ func handleClientMessage(c *webClient, m clientMessage) error {
 					"Bad value in setdata",
 				))
 			}
-			if c.data == nil {
-				c.data = make(map[string]interface{})
+			// other goroutines may be reading c.data
+			newdata := maps.Clone(c.data)
+			if newdata == nil {
+				newdata = make(map[string]interface{})
 			}
 			for k, v := range data {
 				if v == nil {
-					delete(c.data, k)
+					delete(newdata, k)
 				} else {
-					c.data[k] = v
+					newdata[k] = v
 				}
 			}
+			c.setData(newdata)
 			id := c.Id()
 			user := c.Username()
 			perms := c.Permissions()
@@ -2165,7 +2199,7 @@ func clientWriter(conn *websocket.Conn, ch <-chan interface{}, done chan<- struc
 }
 
 func (c *webClient) Warn(oponly bool, message string) error {
-	if oponly && !slices.Contains(c.permissions, "op") {
+	if oponly && !slices.Contains(c.Permissions(), "op") {
 		return nil
 	}
 
